@@ -307,11 +307,23 @@ class Evaluator(object):
         if path in self._mut_cache:
             return self._mut_cache[path]
         ids = set()
+        lent = set()   # `&mut local` arguments of helpers that are read through and do not assign through them: the local keeps its term
+        nh = getattr(self, 'new_helper', None)
+        if nh is not None:
+            for n in H.walk(fn.get('hir', {})):
+                if n.get('k') in ('Call', 'MethodCall'):
+                    cp = norm_path(H.callee_path(n) or '')
+                    tgt = self.fns.get(cp)
+                    if tgt is None or 'hir' not in tgt or not nh(cp) or (self.inline_filter is not None and not self.inline_filter(cp)):
+                        continue
+                    for i_, a in enumerate(H.call_args(n)):
+                        if a.get('k') == 'AddrOf' and a.get('mut') and a['e'].get('k') == 'Local' and not assigns_through_param(tgt, i_):
+                            lent.add(id(a))
         for n in H.walk(fn.get('hir', {})):
             k = n.get('k')
             if k in ('Assign', 'AssignOp') and n['l'].get('k') == 'Local':
                 ids.add(n['l']['id'])
-            if k == 'AddrOf' and n.get('mut') and n['e'].get('k') == 'Local' and not n['e'].get('ty', '').startswith('&'):
+            if k == 'AddrOf' and n.get('mut') and n['e'].get('k') == 'Local' and not n['e'].get('ty', '').startswith('&') and id(n) not in lent:
                 ids.add(n['e']['id'])
         out = {lid: '$m%d' % i for i, lid in enumerate(sorted(ids))}
         self._mut_cache[path] = out
@@ -1184,6 +1196,16 @@ class Evaluator(object):
             ga = node.get('gargs') if node.get('k') == 'MethodCall' else (node.get('f') or {}).get('gargs')
             if ga:
                 npath = '<' + H.norm_path(self.tyenv.get(ga[0], ga[0])) + npath[npath.index(' as '):]
+        elif self.tyenv and '::' in npath and not npath.startswith('<'):
+            # `T::method(..)` inside a generic helper that is read through for a concrete T: the impl the caller's type selects
+            ga = node.get('gargs') if node.get('k') == 'MethodCall' else (node.get('f') or {}).get('gargs')
+            if ga and ga[0] in self.tyenv:
+                tr_, m_ = npath.rsplit('::', 1)
+                conc = H.norm_path(self.tyenv[ga[0]])
+                for cand in ('<%s as %s>::%s' % (conc, tr_, m_), '<T as %s>::%s' % (tr_, m_)):
+                    if cand in self.fns:
+                        npath = '<%s as %s>::%s' % (conc, tr_, m_)
+                        break
         if npath in ('std::result::Result::and_then',) and len(args_nodes) == 2 and closure_node(args_nodes[1]) is not None and len(closure_node(args_nodes[1])['params']) == 1:
             cn = closure_node(args_nodes[1])
             x = self.eval(args_nodes[0], env, guards, fn, chain)
@@ -1238,7 +1260,18 @@ class Evaluator(object):
                 ct = ('call', '%s::%s' % (sty, meth), (coll, item), ())
                 self.emit('call', ct, node, g, fn, chain, callee='%s::%s' % (sty, meth), args=(coll, item), extra={'decl': '%s::%s' % (sty, meth), 'gargs': ()})
                 return ('unit',)
-        args = tuple(self.eval(a, env, guards, fn, chain) for a in args_nodes)
+        tgt_ = self.fns.get(npath)
+        reads_through = tgt_ is not None and 'hir' in tgt_ and len(chain) < self.depth_limit and npath not in chain and (self.inline_filter is None or self.inline_filter(npath)) \
+            and getattr(self, 'new_helper', None) is not None and self.new_helper(npath)
+        args = []
+        for i_, a in enumerate(args_nodes):
+            if reads_through and a.get('k') == 'AddrOf' and a.get('mut') and a['e'].get('k') == 'Local' and not (a['e'].get('ty') or '').startswith('&') \
+                    and env.get(a['e']['id']) is not None and env[a['e']['id']][0] != 'var' and not assigns_through_param(tgt_, i_):
+                # a local lent to a helper that is read through: what the helper does to it is seen where it does it, the local keeps its term
+                args.append(env[a['e']['id']])
+            else:
+                args.append(self.eval(a, env, guards, fn, chain))
+        args = tuple(args)
         if (is_erased_call(ndecl) or is_erased_call(npath)) and len(args) == 1:
             return args[0]
         if ndecl.endswith('TryFrom::try_from') and len(args) == 1 and len(args_nodes) == 1:
@@ -1291,9 +1324,18 @@ class Evaluator(object):
                 t = ('call', 'Err', (replace(clo[3], ('var', clo[2][0][0], clo[2][0][1]), inner[2][0]),), ())
             elif inner[1] == 'Ok' and len(inner[2]) == 1:
                 t = inner
+        if t[0] == 'call' and t[1] == 'std::result::Result::map_err' and len(t[2]) == 2 and t[2][1] is not None and t[2][1][0] == 'closure' and len(t[2][1][2]) == 1 \
+                and t[2][1][3] == ('var', t[2][1][2][0][0], t[2][1][2][0][1]):
+            return t[2][0]  # map_err(|e| { log; e }): the error itself
         if t[0] == 'call' and t[1] == 'std::result::Result::map_err' and len(t[2]) == 2 and t[2][1] is not None and t[2][1][0] == 'path' and \
                 (t[2][1][1].endswith('::into') or t[2][1][1].endswith('::from')):
             t = t[2][0]  # map_err(Into::into): a conversion of the error type, erased like every From/Into
+        if t[0] == 'call' and t[1] in ('std::option::Option::unwrap_or_else', 'std::result::Result::unwrap_or_else') and len(t[2]) == 2 and t[2][1] is not None and t[2][1][0] == 'closure' \
+                and len(t[2][1][2]) == (0 if t[1].startswith('std::option') else 1) and t[2][1][3] is not None and t[2][1][3][0] in ('lit', 'path'):
+            # unwrap_or_else(|| constant) is unwrap_or(constant): nothing is computed lazily
+            npath = t[1][:-len('_else')]
+            args = (t[2][0], t[2][1][3])
+            t = ('call', npath, args, ())
         if t[0] == 'call' and t[1] == 'std::option::Option::unwrap_or' and len(t[2]) == 2 and t[2][0] is not None and t[2][0][0] == 'call' \
                 and t[2][0][1] == 'std::option::Option::filter' and len(t[2][0][2]) == 2:
             some, clo = t[2][0][2]
@@ -1327,6 +1369,29 @@ class Evaluator(object):
                 if rv is not None and rv[0] != 'ctl':
                     return rv
         return t
+
+
+def assigns_through_param(target, i):
+    """the function assigns to (a part of) what its i-th parameter refers to, or hands it to mem::replace / take / swap"""
+    prms = target.get('params', [])
+    if i >= len(prms) or prms[i].get('k') != 'Bind':
+        return True
+    pid = prms[i]['id']
+    for n_ in H.walk(target.get('hir') or {}):
+        if n_.get('k') in ('Assign', 'AssignOp'):
+            x_ = n_['l']
+            while isinstance(x_, dict) and (x_.get('k') in ('Field', 'Index', 'AddrOf') or (x_.get('k') == 'Unary' and x_.get('op') == 'Deref')):
+                x_ = x_['e']
+            if isinstance(x_, dict) and x_.get('k') == 'Local' and x_['id'] == pid:
+                return True
+        elif n_.get('k') in ('Call', 'MethodCall') and norm_path(H.callee_path(n_) or '').startswith(('std::mem::', 'core::mem::')):
+            for a_ in H.call_args(n_):
+                y_ = a_
+                while isinstance(y_, dict) and (y_.get('k') in ('Field', 'Index', 'AddrOf') or (y_.get('k') == 'Unary' and y_.get('op') == 'Deref')):
+                    y_ = y_['e']
+                if isinstance(y_, dict) and y_.get('k') == 'Local' and y_['id'] == pid:
+                    return True
+    return False
 
 
 def guard_lits(g):
@@ -1643,6 +1708,8 @@ def iter_view(itt, it_node=None):
         base, bitem = iter_view(itt[2][0])
         clo = itt[2][1]
         return base, replace(clo[3], ('var', clo[2][0][0], clo[2][0][1]), bitem)
+    if itt is not None and itt[0] == 'call' and itt[1] in ('std::iter::Iterator::copied', 'std::iter::Iterator::cloned') and len(itt[2]) == 1:
+        return iter_view(itt[2][0])  # the items by value instead of by reference: the same items
     if itt is not None and itt[0] == 'call' and itt[1] in ('std::collections::HashMap::keys', 'std::collections::HashMap::values') and len(itt[2]) == 1:
         base = ('call', 'std::collections::HashMap::iter', itt[2], ())
         return base, ('field', ('call', 'iter_item', (base,), ()), '0' if itt[1].endswith('keys') else '1')
